@@ -39,7 +39,8 @@ Fixpoint find_from (s t : text) (i start : nat) : option nat :=
   else match t with [] => None | _ :: t' => find_from s t' (S i) start end.
 
 Definition py_find (s t : text) (start : Z) : option nat :=
-  find_from s t 0 (norm_idx (length t) start).
+  if (Z.of_nat (length t) <? start)%Z then None      (* start beyond the end: -1 even for s = '' *)
+  else find_from s t 0 (norm_idx (length t) start).
 
 (** list replacement [l[a:b] = r] (slice assignment, used by screen scrolling) *)
 Definition py_slice_assign {A} (l : list A) (a b : Z) (r : list A) : list A :=
